@@ -213,7 +213,7 @@ pub fn cmd_std(opts: &BTreeMap<String, String>) -> i32 {
         while out.len() < want && idx < from + 100_000 {
             let scn = gen_thread_scn(seed, idx, small);
             if let Ok(o) = exec_scn(&scn, Engine::Seq) {
-                if o.workers >= 2 && o.entries >= 3 {
+                if o.workers >= 2 && o.entries >= 2 {
                     out.push(idx.to_string());
                 }
             }
